@@ -431,8 +431,8 @@ func (p *parser) chrAt(index int) chr { //nolint:unused
 }
 
 func (p *parser) peek() rune {
-	if p.offset+1 < p.length {
-		return rune(p.str[p.offset+1])
+	if p.offset < p.length {
+		return rune(p.str[p.offset]) // p.offset is already past p.chr
 	}
 	return -1
 }
